@@ -7,6 +7,7 @@ import (
 	"fmt"
 	"os"
 	"sort"
+	"strings"
 	"testing"
 
 	"pgregory.net/rapid"
@@ -164,6 +165,25 @@ func TestReplay(t *testing.T) {
 		"TestMySQLRelay":   func(raw json.RawMessage) hx.Vs { return decodeCase(raw, func(c MyCase) hx.Vs { vs, _, _ := CheckMy(c); return vs }) },
 		"TestMySQLRewrite": func(raw json.RawMessage) hx.Vs { return decodeCase(raw, func(c MyCase) hx.Vs { vs, _, _ := CheckMy(c); return vs }) },
 	})
+}
+
+// report hands the violations to the recorder. VERIF_SKIP (comma-separated signature prefixes) is a development aid
+// to look behind a violation that is already understood; the driver never sets it.
+func report(t hx.TB, test string, c any, vs hx.Vs) {
+	if skip := os.Getenv("VERIF_SKIP"); skip != "" {
+		var keep hx.Vs
+	next:
+		for _, v := range vs {
+			for _, p := range strings.Split(skip, ",") {
+				if p != "" && strings.HasPrefix(v.Sig, p) {
+					continue next
+				}
+			}
+			keep = append(keep, v)
+		}
+		vs = keep
+	}
+	R.Report(t, test, c, vs)
 }
 
 var _ = bytes.Equal
